@@ -20,6 +20,9 @@ T = {
     'C09-m1': ('C09', 'the broken variant of a commented dict value re-renders unwrap_comments(v)[0]: a dict value carrying BOTH comment() and trailing_comment() loses its trailing comment', {'C09': 'VIOLATION with input'}),
     'C10-m1': ('C10', 'non-str dict keys are printed with max_seq_len=sys.maxsize: a tuple/frozenset key longer than N is not truncated', {'C10': 'VIOLATION with input'}),
     'C11-m1': ('C11', 'the re-rendered (comment-above) variant of a commented dict value drops nested_call(): cut one level too late, only when the value is commented AND the line does not fit', {'C11': 'VIOLATION with input (after adding commented values to the C11 generator; missed before)'}),
+    'C13-m1': ('C13', 'start_visit skips "immutable" types including tuple: a cycle entered through a plain tuple is not cut at the tuple; the marker lands one hop later with the wrong type/id (needs a cycle built through a tuple and printing reaching the tuple first)', {'C13': 'VIOLATION with input'}),
+    'C14-m1': ('C14', 'the repr fallback returns before end_visit: a failed value stays in the visited set, so the SAME object reached again in one pformat call prints as a recursion marker and its warning is lost', {'C14': 'VIOLATION with input'}),
+    'C17-m1': ('C17', 'the attrs extra memoises default-factory results per (class, attribute): with a takes_self factory later instances are compared against the first printed instance\'s default (needs two instances of one class with different self-dependent defaults)', {'C17': 'VIOLATION with input (after generating several instances per class with self-dependent factories; before that: no-failing-input-found via the fail-closed translator)'}),
     'C03-m1': ('C03', 'the dangling comma of a commented one-element tuple is added only in the flat variant: at narrow widths (comment above the element) the 1-tuple prints as a parenthesised expression', {'C03': 'VIOLATION with input', 'C09': 'VIOLATION with input'}),
 }
 
